@@ -357,6 +357,7 @@ func (cv CertValidity) toTimeStruct() (config.CertificateValidity, error) {
 				return out, errors.New(`config-v1: "until" date is not conforming to YYYY-MM-DD`)
 			}
 			out.IsSet = true
+			out.IsUntilStatic = !out.IsStatic
 		} else if len(cv.Duration) != 0 {
 			if !durationRx.MatchString(cv.Duration) {
 				return out, errors.New(`config-v1: "duration" is not conforming to schema`)
@@ -383,6 +384,9 @@ func (cv CertValidity) toTimeStruct() (config.CertificateValidity, error) {
 				return out, errors.New(`config-v1: "duration" is too large to be added to the start date`)
 			}
 			out.IsSet = true
+			if !out.IsStatic {
+				out.Duration = cv.Duration
+			}
 		} else {
 			//both empty
 			out.Until = out.From.AddDate(DefaultValidityYears, 0, 0)
